@@ -110,9 +110,20 @@ type Contracts struct {
 	Guards   map[string]GuardDecl // "pkgpath::global" -> mutex
 	NonNilGlobals map[string]bool // "pkgpath::global": assigned once, in the package initializer, a non-nil value
 	GlobalTypes   map[string]string // optional dynamic type of such a global ("name:Type")
+	OnlyCalledBy  []OnlyCalledByDecl
+	DefaultFrames map[string][]string // property -> locations every uncontracted module callee is scanned to preserve
 	Extensions    []*FuncContract   // `extend func`: clauses merged into the base contract
 	AllMethods    []AllMethodsDecl  // every method of a type must be under contract for a property
 	MapNonNil     map[string]bool   // "pkgpath::global": map whose stored values are non-nil
+}
+
+// OnlyCalledByDecl: call sites of Callee (a qualified function, or "type:<NamedFuncType>" for calls
+// through values of that type) in module code may only occur in the listed functions.
+type OnlyCalledByDecl struct {
+	Pkg     string
+	Callee  string
+	Callers []string
+	Tags    []string
 }
 
 type AllMethodsDecl struct {
@@ -127,14 +138,14 @@ type GuardDecl struct {
 }
 
 func newContracts() *Contracts {
-	return &Contracts{Funcs: map[string]*FuncContract{}, Specs: map[string]*SpecDecl{}, Ghosts: map[string]*GhostDecl{}, Guards: map[string]GuardDecl{}, NonNilGlobals: map[string]bool{}, GlobalTypes: map[string]string{}, MapNonNil: map[string]bool{}}
+	return &Contracts{Funcs: map[string]*FuncContract{}, Specs: map[string]*SpecDecl{}, Ghosts: map[string]*GhostDecl{}, Guards: map[string]GuardDecl{}, NonNilGlobals: map[string]bool{}, GlobalTypes: map[string]string{}, MapNonNil: map[string]bool{}, DefaultFrames: map[string][]string{}}
 }
 
 // classOverride: struct types (pkgname.Type) whose components belong to a class other than
 // their package's (e.g. per-call error objects are not part of the shared document).
 var classOverride = map[string]string{}
 
-var declKeywords = map[string]bool{"extend": true, "allmethods": true, "global": true, "guarded": true, "class": true, "func": true, "iface": true, "fnfield": true, "pred": true, "spec": true, "axiom": true,
+var declKeywords = map[string]bool{"onlycalledby": true, "default-frame": true, "extend": true, "allmethods": true, "global": true, "guarded": true, "class": true, "func": true, "iface": true, "fnfield": true, "pred": true, "spec": true, "axiom": true,
 	"lemma": true, "ghost": true, "generate": true, "trusted": true}
 var clauseKeywords = map[string]bool{"requires": true, "ensures": true, "modifies": true, "panics_if": true, "loop": true,
 	"tag": true, "pure": true, "records": true, "preserves": true, "defines": true, "assuming": true, "secret": true, "untainted": true, "returns-untainted": true, "fresh": true, "reads": true, "option": true, "nosafety": true}
@@ -326,9 +337,15 @@ func (cs *Contracts) loadContractFile(path, pkgPath string) error {
 			}
 			var ord int
 			var what string
-			n, _ := fmt.Sscanf(rest, "%d %s", &ord, &what)
-			if n != 2 {
-				return fail("bad loop clause")
+			if strings.HasPrefix(rest, "* ") {
+				// applies to every loop of the function
+				ord = -1
+				what = firstWord(strings.TrimSpace(rest[2:]))
+			} else {
+				n, _ := fmt.Sscanf(rest, "%d %s", &ord, &what)
+				if n != 2 {
+					return fail("bad loop clause")
+				}
 			}
 			k := strings.Index(rest, what)
 			body := strings.TrimSpace(rest[k+len(what):])
@@ -438,6 +455,35 @@ func (cs *Contracts) loadContractFile(path, pkgPath string) error {
 				return fail("%v", err)
 			}
 			cs.Ghosts[f[1]] = &GhostDecl{Name: f[1], Pkg: pkgPath, Ty: ty}
+		case "onlycalledby":
+			cur = nil
+			// onlycalledby @C11 <callee> : f1, f2
+			f := strings.Fields(rest)
+			k := strings.Index(rest, ":")
+			if len(f) < 3 || !strings.HasPrefix(f[0], "@") || k < 0 {
+				return fail("expected: onlycalledby @PROP <callee> : caller, ...")
+			}
+			d := OnlyCalledByDecl{Pkg: pkgPath, Callee: f[1], Tags: []string{f[0][1:]}}
+			// "type:X" contains ':' too: split at the " : " separator
+			k = strings.Index(rest, " : ")
+			if k < 0 {
+				return fail("expected ' : ' before the caller list")
+			}
+			for _, c := range strings.Split(rest[k+3:], ",") {
+				d.Callers = append(d.Callers, strings.TrimSpace(c))
+			}
+			cs.OnlyCalledBy = append(cs.OnlyCalledBy, d)
+		case "default-frame":
+			cur = nil
+			// default-frame @C11 preserves a, b, c
+			f := strings.Fields(rest)
+			if len(f) < 3 || !strings.HasPrefix(f[0], "@") || f[1] != "preserves" {
+				return fail("expected: default-frame @PROP preserves loc, ...")
+			}
+			k := strings.Index(rest, "preserves")
+			for _, l := range splitTop(rest[k+len("preserves"):], ',') {
+				cs.DefaultFrames[f[0][1:]] = append(cs.DefaultFrames[f[0][1:]], strings.TrimSpace(l))
+			}
 		case "allmethods":
 			cur = nil
 			f := strings.Fields(rest)
